@@ -42,7 +42,7 @@ NAMES = ['', 'n', 'm']
 def mism(ctx, what, expected, got):
     if len(mismatches) < 60:
         mismatches.append({'ctx': ctx, 'what': what, 'expected': expected,
-                           'got': got, 'impl': impl})
+                           'got': got, 'impl': impl, 'case_idx': childlib.CASE[0]})
 
 
 class HC:
@@ -527,7 +527,7 @@ def run_case(case):
                                            'listing': exp_l})
 
 
-for case in job['cases']:
+for childlib.CASE[0], case in enumerate(job['cases']):
     try:
         run_case(case)
     except Exception:
